@@ -13,6 +13,9 @@ import (
 type Failure struct {
 	Sig    string `json:"sig"`    // canonical signature: *what* fails
 	Detail string `json:"detail"` // expected / observed
+	// Spec, when set, is the spec of the failing SUB-case (a case may explore many executions, e.g. all
+	// schedules of a subtree); it is what gets confirmed in fresh processes and written to the replay file.
+	Spec string `json:"spec,omitempty"`
 }
 
 // Result of executing one case against the real code.
@@ -87,6 +90,9 @@ type Prop struct {
 	Selftest func(tier string) (killed, total int, notes []string)
 	// Workers overrides the worker count (0 = NumCPU).
 	Workers int
+	// Coverage, when set, adds/overrides evidence coverage keys computed from the merged hit counters
+	// (e.g. states / transitions / traces for stateless schedule exploration).
+	Coverage func(tier string, counters map[string]int) map[string]any
 }
 
 var (
